@@ -76,8 +76,8 @@ func splitMain(files map[string]string, parts int) []string {
 
 // Run is the C17 check.
 func Run(c *core.Ctx) int {
-	nprog := c.N(6, 24)
-	builds := c.N(5, 12)
+	nprog := c.N(6, 16)
+	builds := c.N(5, 10)
 	type job struct {
 		name  string
 		files map[string]string
